@@ -389,10 +389,11 @@ class ParCorr(Corr):
         self.procs = max(1, min(procs, os.cpu_count() or 1))
         self._seen = set()
 
-    def add(self, line, thunk, tag="", cost=0.0005):
-        if line in self._seen:
+    def add(self, line, thunk, tag="", cost=0.0005, key=None):
+        """`key`: whatever distinguishes two real-code calls that share a model line (e.g. the container of a bytes-like digest)"""
+        if (line, key) in self._seen:
             return
-        self._seen.add(line)
+        self._seen.add((line, key))
         Corr.add(self, line, thunk, tag)
         self.costs.append(cost)
 
@@ -484,6 +485,55 @@ def call(f):
         if isinstance(e, (KeyboardInterrupt, SystemExit, MemoryError)):
             raise
         return ("err", errname(e), type(e).__name__)
+
+
+# ------------------------------------------------------------------------------------------------
+# bytes-like containers: the entry points accept any object exporting the buffer protocol and work on its BYTES
+# (`normalise_bytes` = memoryview(obj).cast("B")).  A container with multi-byte items has len(obj) != number of bytes, so an entry
+# point that forgets the normalisation crops / measures the digest in items.  The oracle and the model always see the bytes.
+
+CONTAINERS = ("bytearray", "memoryview", "mv-H", "mv-I", "array-B", "array-H", "array-I")
+
+
+def wrap_bytes(b, kind):
+    """an object of the named container kind whose underlying bytes are `b` (falls back to bytearray when the item size does not divide)"""
+    import array
+    b = bytes(b)
+    if kind in (None, "bytes"):
+        return b
+    if kind == "memoryview":
+        return memoryview(b)
+    if kind.startswith("mv-") or kind.startswith("array-"):
+        code = kind.split("-")[1]
+        size = array.array(code).itemsize
+        if size > 1 and (len(b) == 0 or len(b) % size):
+            return bytearray(b)
+        if kind.startswith("mv-"):
+            return memoryview(b).cast(code)
+        a = array.array(code)
+        a.frombytes(b)
+        return a
+    return bytearray(b)
+
+
+def digest_obj(case):
+    """what is handed to the real entry point for the case's digest"""
+    return wrap_bytes(bytes.fromhex(case["digest"]), case.get("container"))
+
+
+def container_variants(rng, tagged, frac=0.25, tagpos=0, casepos=1):
+    """copies of the tuples of `tagged` whose case carries a digest, re-offered in a random non-bytes container"""
+    out = []
+    for tup in tagged:
+        case = tup[casepos]
+        if "digest" in case and "container" not in case and rng.random() < frac:
+            kind = rng.choice(CONTAINERS)
+            c2 = dict(case, container=kind)
+            t2 = list(tup)
+            t2[tagpos] = "%s [digest as %s]" % (tup[tagpos], kind)
+            t2[casepos] = c2
+            out.append(tuple(t2))
+    return out
 
 
 # ------------------------------------------------------------------------------------------------
